@@ -100,8 +100,15 @@ def expected_events(stmts, cls: str):
 
 
 def real_parse_flat(b: bytes, **kw):
-    """Events of the real generic flat parse; a parse that RAISES ends the list with a pseudo-statement `!ExceptionName`
-    (so that every oracle comparing with an expected list fails on it, instead of the exception escaping into the harness)."""
+    from pyjelly.integrations.generic.parse import parse_jelly_flat
+
+    return list(parse_jelly_flat(io.BytesIO(b), **kw))
+
+
+def real_parse_flat_safe(b: bytes, **kw):
+    """Events of the real generic flat parse for oracles that compare with an expected list and have no handler of their own:
+    a parse that RAISES ends the list with a pseudo-statement `!ExceptionName` (so that the comparison fails on it instead of the
+    exception escaping into the harness and ending the check as a tooling failure)."""
     import common
     from pyjelly.integrations.generic.parse import parse_jelly_flat
 
@@ -577,7 +584,7 @@ def check_C01(ctx: Ctx) -> None:
         o = Opts(fs=250, lt=0, gen=True, star=True, delim=True, pn=pn, pp=pp, pd=pd)
         st = [Triple(IRI("http://a/x"), IRI("http://a/y"), Literal("1", datatype="urn:d") if pd else IRI("http://a/z"))]
         line, b = impl.run_ser_frames("T", o, st, is_sink=False)
-        if not line.endswith(" end") or [stmt_text(x) for x in real_parse_flat(b)] != [stmt_text(x) for x in expected_events(st, "T")]:
+        if not line.endswith(" end") or [stmt_text(x) for x in real_parse_flat_safe(b)] != [stmt_text(x) for x in expected_events(st, "T")]:
             ctx.fail(f"round trip with tables ({pn}, {pp}, {pd}) fails: {line[-60:]}", dict(preset=[pn, pp, pd]))
     # strings that are keys of TWO tables at once ("" is the prefix of <mailto:…> and the name of <http://h/>; a datatype IRI used
     # as a term when the prefix table is off), with the tables full: the row-local bookkeeping of one table must not leak
@@ -600,7 +607,7 @@ def check_C01(ctx: Ctx) -> None:
         req = f"ser T frames {o.token()} gen:{stmts_text(stmts)}"
         if not line.endswith(" end"):
             ctx.fail("the writer raised (" + line.rsplit(" ", 1)[-1] + ") on well-formed statements that fit the lookup tables", dict(request=req))
-        elif [stmt_text(x) for x in real_parse_flat(b)] != [stmt_text(x) for x in expected_events(stmts, "T")]:
+        elif [stmt_text(x) for x in real_parse_flat_safe(b)] != [stmt_text(x) for x in expected_events(stmts, "T")]:
             ctx.fail("round trip differs", dict(request=req))
     # the sizing predicate the theorems assume is the one the generator enforces
     _fits_correspondence(ctx, r)
@@ -3719,7 +3726,7 @@ def _tables_larger_than_names(ctx: Ctx, r, n: int, integrations=("generic", "rdf
             ctx.fail(f"{integ} writer raised on statements that fit a {pn}/{pp}/{pd} preset ({resp[-40:]})", dict(opts=o.describe()))
             continue
         want = [stmt_text(gen.normalize_stmt(x)) for x in expected_events(stmts, cls)]
-        got_g = [stmt_text(x) for x in real_parse_flat(b)]
+        got_g = [stmt_text(x) for x in real_parse_flat_safe(b)]
         got_r = [e[1:] for e in rimpl.run_par_flat(False, "seek", b).split(" ") if e.startswith("S")]
         line_r = rimpl.run_par_flat(False, "seek", b)
         if [_norm_text(x) for x in got_g] != [_norm_text(x) for x in want]:
